@@ -404,6 +404,8 @@ def run(rep, index):
                     ok_name = False
                     nm = "Unrecognized(<the argument formatted by its own __format__/__str__>): for True, a member of another "\
                          "IntEnum or any int subclass with its own text form that is not the decimal ordinal"
+            if not ok_name and not isinstance(nm, (FStr, str)) and nm is not None:
+                raise AnalysisError("C14: the fallback's name is built in a way this interpretation does not follow (%s at %s)" % (_show(nm), loc))
             rep.ob("C14.R4 fallback-named-Unrecognized(n)", inst, ok_name, "_name_ = %s" % (_show(nm),), loc=loc)
             rep.ob("C14.R4 fallback-keeps-the-value", inst, w.is_value(res.attrs.get("_value_")), "_value_ = %s" % (_show(res.attrs.get("_value_")),), loc=loc)
     rep.count("interpreted paths", n_paths)
